@@ -2,6 +2,7 @@
    OCaml driver and by vm_compute in generated cases files. *)
 From Coq Require Import ZArith QArith List String Bool.
 From SKC Require Import Model.Val Base.QBool Base.QList Base.QRank Model.Dominance Model.Agg Model.Electre Model.Result Model.Select Model.Transform Model.Weights Model.Filters Model.Untie Model.Diff Model.Pipeline Model.Impute Model.RRT Model.Simus.
+From SKC Require Model.Alias.
 Import ListNotations.
 Local Open Scope string_scope.
 
@@ -294,6 +295,12 @@ Definition run_simus_scores (a : nat * list (list Q)) : val :=
 Definition run_normalise_rows (rs : list (list Q)) : val := eTable eQ (map normalise_row rs).
 Definition run_credit_sorted (vals : list Q) : val := eL eQ (credit_sorted vals).
 
+(* ---- C02: the enumerated accessor surface ------------------------------------------------------------ *)
+Definition run_accessor_surface (u : Z) : val :=
+  VL [eN Model.Alias.n_accessors;
+      eL (fun a => match Model.Alias.impl_mode a with Model.Alias.Copy _ => VB true | Model.Alias.Share _ => VB false end)
+         (seq 0 Model.Alias.n_accessors)].
+
 Definition dispatch (fn : string) (arg : val) : val :=
   if fn =? "dominance" then with_arg (dP2 (dL dB) dMatrix) run_dominance arg
   else if fn =? "rank" then with_arg (dP2 dB (dL dQ)) run_rank arg
@@ -324,6 +331,7 @@ Definition dispatch (fn : string) (arg : val) : val :=
   else if fn =? "simus_scores" then with_arg (dP2 dN dMatrix) run_simus_scores arg
   else if fn =? "normalise_rows" then with_arg dMatrix run_normalise_rows arg
   else if fn =? "credit_sorted" then with_arg (dL dQ) run_credit_sorted arg
+  else if fn =? "accessor_surface" then with_arg dZ run_accessor_surface arg
   else if fn =? "wsm" then with_arg dDM run_wsm arg
   else if fn =? "ratio" then with_arg dDM run_ratio arg
   else if fn =? "refpoint" then with_arg dDM run_refpoint arg
